@@ -1,12 +1,13 @@
 #!/venv/bin/python
 """Re-run registered checks against a kept seeded change: seed_rerun.py <seed-id> <check ids ...>
-applies seeded/<id>/patch.diff to /repo, runs the checks (quick tier), undoes it, updates meta.json."""
+applies seeded/<id>/patch.diff to a scratch worktree of /repo's HEAD, runs the checks (quick tier) against it
+($LSF_REPO), removes it, updates meta.json."""
 import json, os, subprocess, sys, time
 VERIF = os.path.dirname(os.path.dirname(os.path.abspath(__file__)))
 
 
-def sh(cmd, cwd=None, timeout=3600):
-    p = subprocess.run(cmd, shell=True, cwd=cwd, stdout=subprocess.PIPE, stderr=subprocess.STDOUT, text=True, timeout=timeout)
+def sh(cmd, cwd=None, timeout=3600, env=None):
+    p = subprocess.run(cmd, shell=True, cwd=cwd, env=env, stdout=subprocess.PIPE, stderr=subprocess.STDOUT, text=True, timeout=timeout)
     return p.returncode, p.stdout
 
 
@@ -14,21 +15,23 @@ def main():
     sid, checks = sys.argv[1], sys.argv[2:]
     d = os.path.join(VERIF, "seeded", sid)
     meta = json.load(open(os.path.join(d, "meta.json")))
-    rc, out = sh("git -C /repo status --porcelain")
-    assert out.strip() == "", "/repo is not clean"
-    rc, out = sh("git -C /repo apply %s" % os.path.join(d, "patch.diff"))
-    rc2, st = sh("git -C /repo status --porcelain")
-    assert st.strip(), "patch does not apply to /repo: " + out
+    ev = "/tmp/seed/_eval_%d" % os.getpid()
+    sh("git -C /repo worktree remove --force %s" % ev)
+    rc, out = sh("git -C /repo worktree add --detach %s HEAD" % ev)
+    assert rc == 0, out
+    rc, out = sh("git -C %s apply %s" % (ev, os.path.join(d, "patch.diff")))
+    assert rc == 0, "patch does not apply to /repo's HEAD: " + out
+    cenv = dict(os.environ, LSF_REPO=ev)
     ran = []
     try:
         for c in checks:
             t0 = time.time()
-            rc, out = sh("/venv/bin/python harness/check.py %s --tier quick" % c, cwd=VERIF)
+            rc, out = sh("/venv/bin/python harness/check.py %s --tier quick" % c, cwd=VERIF, env=cenv)
             viol = [l for l in out.splitlines() if l.startswith("VIOLATION")]
             ran.append({"check": c, "exit": rc, "violations": len(viol), "first": viol[:2], "wall_s": round(time.time() - t0, 1)})
             print("check %s: exit=%d violations=%d %s" % (c, rc, len(viol), viol[:1]))
     finally:
-        sh("git -C /repo reset -q --hard HEAD")
+        sh("git -C /repo worktree remove --force %s" % ev)
     if "first_run" not in meta:
         meta["first_run"] = {"ran": meta.get("ran"), "detected_by": meta.get("detected_by")}
     meta["ran"] = ran
